@@ -8,6 +8,8 @@ cd /repo || exit 2
 if [ -n "$(git status --porcelain)" ]; then echo "repo tree not clean" >&2; exit 2; fi
 git apply "$PATCH" 2>/dev/null || git apply -3 "$PATCH" || { echo "patch does not apply" >&2; git checkout -- . ; exit 2; }
 cd /verif
+# FAST=1: each worker stops after its first minimised violation (enough for "caught")
+if [ -n "${FAST:-}" ]; then export VERIF_STOP_AT_FIRST=1; fi
 VERIF_NO_EVIDENCE=1 VERIF_MIN_BUDGET=${VERIF_MIN_BUDGET:-20} ./check "$PROP" "$TIER" > /verif/target/run_mutant.$$.log 2>&1
 RC=$?
 git -C /repo reset -q --hard
